@@ -434,6 +434,31 @@ def enum_everywhere_doc():
     return {"openapi": "3.1.0", "info": {"title": "Enum Api", "version": "3.0"}, "paths": paths, "components": {"schemas": Sx}}
 
 
+DESC_TEXTS = ["C:\\users\\svc\\uploads", "\\\\nas\\share\\dir", "unicode name \\N{not a name", "ends with a backslash\\", "it's \"quoted\" text",
+              "tab\\there and \\x and \\u12 and \\0", "percent %s {braces} ${x}", "two\nlines \\n literal", "caf\u00e9 \u2014 dash", "back`tick` and 'single'", "\\",
+              "plain words only"]
+
+
+def described_doc():
+    """descriptions (property, model, enum, parameter, operation, response) carrying backslashes that form invalid / unicode /
+    hex escapes, a trailing backslash, quotes, braces, newlines, non-ASCII: docstrings_on_attributes moves the property
+    descriptions from the class docstring into attribute docstrings and must change nothing else (both trees import and behave alike)"""
+    T = DESC_TEXTS
+    props = {}
+    for i, t in enumerate(T):
+        props[f"p{i}"] = {"type": "string", "description": t}
+        props[f"q{i}"] = {"type": "integer", "description": t, "default": i}
+    Sx = {"Described": G.obj(props, required=[f"p{i}" for i in range(0, len(T), 2)], description="model: " + " | ".join(T[:6])),
+          "DescEnum": {"type": "string", "enum": ["a", "b"], "description": T[0]},
+          "Holder": G.obj({"d": {"$ref": REF + "Described", "description": T[1]}, "e": {"$ref": REF + "DescEnum"}, "l": {"type": "array", "items": {"type": "string"}, "description": T[3]},
+                           "inner": G.obj({"z": {"type": "string", "description": T[2]}}, description=T[5])}, description=T[3])}
+    params = [{"name": f"a{i}", "in": "query", "schema": {"type": "string"}, "description": t} for i, t in enumerate(T)]
+    paths = {"/d": {"post": {"operationId": "post_described", "tags": ["desc"], "summary": T[0], "description": T[1] + "\n" + T[3], "parameters": params,
+                             "requestBody": {"content": {"application/json": {"schema": {"$ref": REF + "Described"}}}},
+                             "responses": {"200": {"description": T[3], "content": {"application/json": {"schema": {"$ref": REF + "Holder"}}}}}}}}
+    return {"openapi": "3.1.0", "info": {"title": "Described Api", "version": "1", "description": T[0]}, "paths": paths, "components": {"schemas": Sx}}
+
+
 def plain_doc(rng):
     """a document with no enum, no title, one tag per operation, only standard media types, no name that needs a prefix:
     almost every option must leave its tree byte-identical"""
@@ -604,7 +629,7 @@ def strip_docstrings(src):
 def wire_plan(tree, instances):
     """operations for client_runner built from THIS tree's own names; positional w.r.t. the parser's model / endpoint order so
     that plans of two generations of the same document correspond. instances: per model index a list of JSON instances."""
-    ops, keys = [], []
+    ops, keys = [{"op": "import_all"}], [("import", 0, 0, None)]      # every module of the package imports (or fails) alike in both clients
     models = list(tree.data.models)
     for mi, m in enumerate(models):
         for ji, j in enumerate(instances.get(mi, [])):
@@ -785,8 +810,6 @@ def has_int_enum(ab, kind, seen):
 
 def run_wire(tree, instances):
     ops, keys = wire_plan(tree, instances)
-    if not ops:
-        return [], []
     res = impl.run_client(tree.pkg_dir(), ops, timeout=300)
     if isinstance(res, dict):
         return keys, {"fatal": res.get("fatal", "")[-600:]}
@@ -823,7 +846,9 @@ def opt_table(base_tree):
     ov = {}
     picks = [c for c in cls if c[0] in ("C16Plain", "C16Kind", "Alpha")] or cls[:1]
     for i, (cn, mn) in enumerate(picks[:2]):
-        ov[cn] = {"class_name": f"RenamedZq{i}Cls", "module_name": f"renamed_zq{i}_mod"}
+        # same length as the old class name when possible: class names occur inside word-wrapped docstrings
+        newc = f"RenamedZq{i}Cls" if len(cn) < 7 or len(cn) > 30 else (f"Zq{i}Cls" + "x" * len(cn))[:len(cn)]
+        ov[cn] = {"class_name": newc, "module_name": f"renamed_zq{i}_mod"}
     return {
         "class_overrides": {"cfg": {"class_overrides": ov}},
         "project_name_override": {"cfg": {"project_name_override": PROJ_OV}},
@@ -1126,7 +1151,11 @@ def relation(opt, doc, base, var, ctx):
             # calls that exist in both: identical; calls only in the variant (the overridden media types): Content-Type is the original
             mb = {k: r for k, r in zip(kb, rb)}
             for k, r in zip(kv, rv):
-                if k in mb:
+                if k[0] == "import":
+                    if (mb[k].get("failed") or {}) != (r.get("failed") or {}):      # the variant has more modules (the newly supported operations)
+                        fail("a module fails to import under one setting only", {"off": mb[k].get("failed"), "on": r.get("failed")})
+                        break
+                elif k in mb:
                     if norm_obs(mb[k]) != norm_obs(r):
                         fail("wire behaviour of an unrelated operation changed", {"op": k})
                         break
@@ -1339,6 +1368,11 @@ def run(run, tier, replay=None):
             for ci, c in enumerate(ctxs):
                 jobs.append((label, doc, rng.randrange(1 << 30), [c + ("literal_enums",)], "none" if (ei + ci) % 2 == 0 else "poetry", 4))
         jobs.append(("enums", enum_everywhere_doc(), rng.randrange(1 << 30), [(o,) for o in SINGLES if o != "literal_enums"], "poetry", 4))
+        # descriptions with backslashes / quotes / escapes: the docstring option alone and in context, and every other option on that document
+        dd = described_doc()
+        for ci, c in enumerate([(), ("literal_enums",), ("field_prefix",), ("class_overrides",), ("meta",), ("file_encoding",)]):
+            jobs.append(("described", dd, rng.randrange(1 << 30), [c + ("docstrings_on_attributes",)], "none" if ci % 2 == 0 else "poetry", 4))
+        jobs.append(("described", dd, rng.randrange(1 << 30), [(o,) for o in SINGLES if o != "docstrings_on_attributes"], "poetry", 4))
     run.rule = ("stage B: random (string, prefix, override table) / media type strings with override tables / operation lists with tag lists (duplicates, colliding and hostile "
                 "tags, failing operations) / (title, name, parent) triples, each evaluated by the implementation and by the Coq model; stage C: documents = a plain document + atlas "
                 "documents + random schema graphs, each extended with operations (several tags, octet/form/text/custom media types, parameter and property names that need a prefix, "
@@ -1392,6 +1426,7 @@ def run(run, tier, replay=None):
     if not replay and os.environ.get("C16_ONLY") != "B":
         collision_probe(run)
         naming_probe(run, tier)
+        encoding_probe(run, tier)
     bad = run_cases(HDR, terms[:off], shard=250) + [off + i for i in fbad]
     print("phase corr %.1fs" % (time.time() - t0))
     nloc, badloc = stage_b_locations(run) if not replay else (0, 0)
@@ -1443,6 +1478,44 @@ def collision_probe(run):
         if i in guard_false and run.known_finding("override_module_collision", what):
             continue
         run.violation("oracle", {**case, "doc_json": doc, "note": "a class silently lost its module file although the override table is injective on the document's classes" if i not in guard_false else what})
+
+
+def encoding_probe(run, tier):
+    """every (metadata flavour, --file-encoding in {utf-8, cp1252, utf-16}) pair on a document with a non-ASCII title and
+    descriptions: the set of files is that of the utf-8 generation and every file, decoded with the REQUESTED encoding, holds the
+    utf-8 generation's text (a writer that ignores the option writes the locale's encoding instead)."""
+    doc = described_doc()
+    doc["info"] = {"title": "Caf\u00e9 \u00dcber API \u2014 \u00bd", "version": "1", "description": "d\u00e9j\u00e0 vu \u20ac"}
+    for fl in ("none", "poetry", "pdm", "setup"):
+        base = Tree(doc, {}, meta=fl, encoding="utf-8")
+        try:
+            B = texts(base)
+            for enc in ("cp1252", "utf-16"):
+                var = Tree(doc, {}, meta=fl, encoding=enc)
+                try:
+                    case = {"probe": "file_encoding", "flavour": fl, "file_encoding": enc}
+                    run.note_case(case, nontrivial=True, kind="C:encoding-probe")
+                    if var.exc is not None or base.exc is not None:
+                        run.violation("oracle", {**case, "doc_json": doc, "note": "generation raised", "error": repr(var.exc or base.exc)})
+                        continue
+                    if sorted(var.files) != sorted(base.files):
+                        run.violation("oracle", {**case, "doc_json": doc, "note": "file_encoding changed the set of generated files",
+                                                 "first_difference": sorted(set(var.files) ^ set(base.files))[:5]})
+                        continue
+                    for k in sorted(var.files):
+                        try:
+                            txt = var.files[k].decode(enc)
+                        except UnicodeError as e:
+                            txt = "<undecodable as %s: %s>" % (enc, e)
+                        if txt != B[k]:
+                            i = next((i for i in range(min(len(txt), len(B[k]))) if txt[i] != B[k][i]), 0)
+                            run.violation("oracle", {**case, "doc_json": doc, "note": "a generated file is not written in the requested encoding (decoded with it, it differs from the utf-8 generation's text)",
+                                                     "first_difference": [k, B[k][max(0, i - 30):i + 40], txt[max(0, i - 30):i + 40]]})
+                            break
+                finally:
+                    var.close()
+        finally:
+            base.close()
 
 
 def naming_probe(run, tier):
